@@ -22,14 +22,14 @@ RULE = ("case = (spatially periodic spacetime member, input style {tensors, "
 ASSUMPTIONS = ["fresh-instance oracle: same inputs, eviction disabled, single request",
                "tier (ii) accepts differences that converge away at rate >= 2^(p-2)"]
 TIMEOUT = {"quick": 2400, "thorough": 9000}
-MIN_NONTRIVIAL = {"quick": 150, "thorough": 1500}
+MIN_NONTRIVIAL = {"quick": 120, "thorough": 1500}
 
 STYLES = ['tensor', 'components', 'fluid0', 'tensor', 'solution', 'vacuum']
 
 
 def cases(tier, sd):
     rng = np.random.default_rng([int(sd), 1])
-    n = 64 if tier == "quick" else 640
+    n = 40 if tier == "quick" else 640
     out = []
     for i in range(n):
         style = STYLES[i % len(STYLES)]
@@ -62,6 +62,23 @@ def cases(tier, sd):
                                     'gammaup3': float(rng.choice([1e-9, 1.0, 1e9]))}
                                    if rng.random() < 0.4 else None)),
             length=int(rng.integers(5, 41)), hseed=int(rng.integers(1 << 30))))
+    # directed family sweeps: every key of one guard family, in two random
+    # orders back to back (all intra-family "x cached, then y derived from it,
+    # then x again" situations), no eviction and eviction at every step
+    reps = 1 if tier == "quick" else 5
+    for rep in range(reps):
+        for fi, fam in enumerate(H.FAMILIES):
+            vac = bool((fi + rep) % 4 == 3)
+            m = (dict(family=S.PulledBack.name, seed=int(rng.integers(1 << 20)),
+                      base='kasner', period=2.0) if vac else
+                 dict(family=S.ADMTrig.name, seed=int(rng.integers(1 << 20)), period=2.0))
+            out.append(dict(member=m, style=['tensor', 'components'][(fi + rep) % 2],
+                            vacuum=vac, Lambda=0.0 if vac else 0.2, tetrad=None,
+                            center=None, n1=6, order=2, mode='periodic', noncubic=None,
+                            cache=dict(every=[10 ** 6, 1, 3][(fi + rep) % 3],
+                                       gb=(1e9 if (fi + rep) % 3 == 0 else 8.0 * 216 / 1024 ** 3 * 60),
+                                       importance=None),
+                            length=0, family=fam, hseed=int(rng.integers(1 << 30))))
     return out
 
 
@@ -147,6 +164,18 @@ def run_case(spec):
     keys = H.all_keys()
     rng = np.random.default_rng([int(spec['hseed']), 3])
     ops = H.gen_history(rng, spec['length'], keys)
+    if spec.get('family'):
+        F = [k for k in H.FAMILIES[spec['family']] if k in keys]
+        ops = [('key', F[i]) for i in rng.permutation(len(F))] + \
+              [('key', F[i]) for i in rng.permutation(len(F))]
+    # "x, y, x" triplets inside one guard family: the second x is a cache hit
+    # that must still equal the fresh value after y was computed from it
+    fams = list(H.FAMILIES)
+    for _ in range(2):
+        F = [k for k in H.FAMILIES[fams[int(rng.integers(len(fams)))]] if k in keys]
+        x, y = F[int(rng.integers(len(F)))], F[int(rng.integers(len(F)))]
+        pos = int(rng.integers(len(ops) + 1))
+        ops[pos:pos] = [('key', x), ('key', y), ('key', x)]
     p = spec['order']
     trace = {}
     recs, events, counters, _ = run_walk(spec, spec['n1'], ops,
